@@ -267,15 +267,10 @@ func c12ExpectedGroups(l *c12Layout, flags int, sr bool, b *c12Built) [][]int {
 		}
 		return intended()
 	case "sidx", "sidx2":
-		if som {
-			return nil
-		}
+		// the start-on-moof option applies only when no sidx/mfra says otherwise (documented on DecStartOnMoof)
 		return intended()
 	case "mfra":
 		if flags&1 != 0 {
-			if som {
-				return nil
-			}
 			return intended()
 		}
 		if som {
